@@ -31,6 +31,7 @@
 #define CRC_SIZE (4)
 #define HEADER_ALIGN (8)            // must be power of 2 and greater than CRC_SIZE
 #define SCAN_SIZE (4096)
+#define SMALL_PAYLOAD_SIZE (256)    // payloads up to this size are written together with their CRC
 #define CHUNK_BUFFER_SIZE  (1 << 24)
 static const uint8_t FILE_HDR[] = JLS_HEADER_IDENTIFICATION;
 
@@ -278,8 +279,17 @@ int32_t jls_raw_wr_payload(struct jls_raw_s * self, uint32_t payload_length, con
     footer[pad + 2] = (crc32 >> 16) & 0xff;
     footer[pad + 3] = (crc32 >> 24) & 0xff;
 
-    RLE(jls_bk_fwrite(&self->backend, payload, hdr->payload_length));
-    RLE(jls_bk_fwrite(&self->backend, footer, pad + CRC_SIZE));
+    if (hdr->payload_length <= SMALL_PAYLOAD_SIZE) {
+        // One write for small payloads: an in-place payload update (track head table)
+        // must never be on disk with the CRC of the previous content.
+        uint8_t small[SMALL_PAYLOAD_SIZE + sizeof(footer)];
+        memcpy(small, payload, hdr->payload_length);
+        memcpy(small + hdr->payload_length, footer, pad + CRC_SIZE);
+        RLE(jls_bk_fwrite(&self->backend, small, hdr->payload_length + pad + CRC_SIZE));
+    } else {
+        RLE(jls_bk_fwrite(&self->backend, payload, hdr->payload_length));
+        RLE(jls_bk_fwrite(&self->backend, footer, pad + CRC_SIZE));
+    }
     if (self->backend.fpos >= self->backend.fend) {
         self->last_payload_length = payload_length;
     }
